@@ -51,7 +51,8 @@ def plan(tier, seed):
 def floors(tier):
     return {'evaluations': 15000, 'distinct_nontrivial': 4000, 'callbacks_checked': 200000,
             'none_placeholders_seen': 2000, 'histkeys:callback': 9, 'trees_with_none_body_or_args': 50,
-            'empty_nodelist_arguments_seen': 500, 'nonempty_nodelist_arguments_seen': 500}
+            'empty_nodelist_arguments_seen': 500, 'nonempty_nodelist_arguments_seen': 500,
+            'catch_all_visitor_runs': 5000, 'histkeys:catch_all_for': 9, 'hist:catch_all_for:visit_specials_node': 200}
 
 
 def setup(rec):
@@ -96,6 +97,27 @@ class Recording(N.LatexNodesVisitor):
 
     def visit_unknown_node(self, node, **kw):
         return self._rec('visit_unknown_node', node, kw)
+
+
+_KIND_METHODS = ['visit_chars_node', 'visit_group_node', 'visit_comment_node', 'visit_macro_node',
+                 'visit_environment_node', 'visit_specials_node', 'visit_math_node', 'visit_node_list',
+                 'visit_parsed_arguments', 'visit_unknown_node']
+_PARTIAL = {}
+
+
+def partial_visitor(mask):
+    """A visitor written the other documented way: only the per-kind callbacks in `mask` are reimplemented, everything
+    else arrives at the catch-all visit()."""
+    if mask not in _PARTIAL:
+        def visit(self, node, **kw):
+            return self._rec('visit', node, kw)
+        d = {'visit': visit, 'log': None,
+             '_rec': Recording._rec, '__init__': Recording.__init__}
+        for i, m in enumerate(_KIND_METHODS):
+            if mask >> i & 1:
+                d[m] = Recording.__dict__[m]
+        _PARTIAL[mask] = type('Partial%d' % mask, (N.LatexNodesVisitor,), d)
+    return _PARTIAL[mask]()
 
 
 class Ref(object):
@@ -186,8 +208,10 @@ def kw_equal(want, got):
     return True
 
 
-def check_tree(root, rec):
-    v = Recording()
+def check_tree(root, rec, mask=None):
+    v = Recording() if mask is None else partial_visitor(mask)
+    if mask is not None:
+        rec.monitor('catch_all_visitor_runs')
     try:
         v.start(root)
     except Exception as e:
@@ -215,7 +239,9 @@ def check_tree(root, rec):
         kinds.add(gname)
         if gobj is not wobj:
             return 'callback %d visits %s, the post-order traversal expects %s' % (i, _d(gobj), _d(wobj)), None
-        if gname != wname:
+        if gname == 'visit' and mask is not None and not (mask >> _KIND_METHODS.index(wname) & 1):
+            rec.hist('catch_all_for', wname)
+        elif gname != wname:
             return 'callback %d: %s called for %s, expected %s' % (i, gname, _d(gobj), wname), None
         if not kw_equal(wkw, gkw):
             return 'callback %d (%s on %s) received %r, expected the children results %r' % (
@@ -244,6 +270,11 @@ def check_case(case, rec):
     err, info = check_tree(nl, rec)
     if not err and info and info[0] >= 5 and info[1] >= 3:
         rec.nontrivial(s)
+    if not err and case.get('mask') is not None:
+        err, _ = check_tree(nl, rec, mask=case['mask'])
+        if err:
+            err = 'visitor reimplementing only %s plus the catch-all visit(): %s' % (
+                [m for i, m in enumerate(_KIND_METHODS) if case['mask'] >> i & 1], err)
     if not err and case.get('subtrees'):
         for n in list(canon.walk(nl))[:6]:
             err, _ = check_tree(n, rec)
@@ -281,14 +312,16 @@ def run_shard(desc, rec):
             rec.case()
             if i % 500 == 0:
                 rec.sample(s)
-            check_case({'s': s, 'ctx': {'vocab': 'nlargs'}, 'tolerant': bool(i % 2), 'subtrees': i % 7 == 0}, rec)
+            check_case({'s': s, 'ctx': {'vocab': 'nlargs'}, 'tolerant': bool(i % 2), 'subtrees': i % 7 == 0,
+                        'mask': (0 if i % 4 == 0 else rng.randrange(1 << 10)) if i % 2 else None}, rec)
         return
     if desc['kind'] == 'soup':
         for i, s in enumerate(work.soups(rng, desc['count'])):
             rec.case()
             if i % 600 == 0:
                 rec.sample(s)
-            check_case({'s': s, 'tolerant': True, 'subtrees': i % 10 == 0}, rec)
+            check_case({'s': s, 'tolerant': True, 'subtrees': i % 10 == 0,
+                        'mask': (0 if i % 4 == 0 else rng.randrange(1 << 10)) if i % 2 == 0 else None}, rec)
     else:
         src = work.DocSource(rng, desc['vocab'], depth=desc['depth'], cover_base=desc.get('cb', 0))
         for i in range(desc['count']):
@@ -296,7 +329,8 @@ def run_shard(desc, rec):
             rec.case()
             if i % 300 == 0:
                 rec.sample(s)
-            check_case({'s': s, 'ctx': cdesc, 'tolerant': False, 'subtrees': i % 10 == 0}, rec)
+            check_case({'s': s, 'ctx': cdesc, 'tolerant': False, 'subtrees': i % 10 == 0,
+                        'mask': (0 if i % 4 == 0 else rng.randrange(1 << 10)) if i % 2 == 0 else None}, rec)
 
 
 LEVEL_TEXT = ('Exploration with a reference traversal: a recording visitor (one unique token per callback) is started on '
